@@ -40,12 +40,12 @@ theorem R_addCond (hs : SimpSound s) {st0 X : SState} {c1 : B} (hc1 : c1.WF) (hR
 
 /-- **step_sound.** -/
 theorem step_sound (hs : SimpSound s) (hI : I.Std) (hR : R I env code p st f) (hsat : Sat I st.path)
-    (hl : f.stack.length ≤ 1024) (hmem : cfg.maxMem + 32 ≤ p.memLimit) :
+    (hl : f.stack.length ≤ 1024) (hmem : cfg.maxMem + 32 ≤ p.memLimit) (hcode : ∀ b ∈ code, b < 256) :
     (∀ st' ∈ (step s o cfg env code st).next, Sat I st'.path →
         ∃ f', CReach p w f f' ∧ R I env code p st' f') ∧
     (∀ e ∈ (step s o cfg env code st).ends, e.tag = .normal → ∀ h, e.out = .halt h →
         Evm.step p w f = .halt w (haltWith h (e.data.map (·.eval I)))) := by
-  rcases step_corr (w := w) (o := o) (cfg := cfg) hs hI hR hsat hl hmem with
+  rcases step_corr (w := w) (o := o) (cfg := cfg) hs hI hR hsat hl hmem hcode with
     ⟨st1, f1, e, _, _, hreach, hR1⟩ | ⟨st0, h0, data, e, hp, hstep⟩ | ⟨e0, e, hp, hnc⟩ |
     ⟨st0, target, c, e, hc, hp, _, htrue, hbad, hfalse⟩
   · rw [e]
@@ -103,13 +103,14 @@ def EndCovers (I : Interp) (h : Evm.Halt) (e : EndState) : Prop :=
 
 /-- **step_complete.** -/
 theorem step_complete (hs : SimpSound s) (ho : OracleSound o) (hI : I.Std) (hR : R I env code p st f)
-    (hl : f.stack.length ≤ 1024) (hmem : cfg.maxMem + 32 ≤ p.memLimit) (hsat : Sat I st.path) {w' : Evm.World}
+    (hl : f.stack.length ≤ 1024) (hmem : cfg.maxMem + 32 ≤ p.memLimit) (hcode : ∀ b ∈ code, b < 256)
+    (hsat : Sat I st.path) {w' : Evm.World}
     {h : Evm.Halt} (hh : Halts p w f (w', h)) :
     (∃ st' ∈ (step s o cfg env code st).next, Sat I st'.path ∧
         ∃ f', R I env code p st' f' ∧ Halts p w f' (w', h)) ∨
     (∃ e ∈ (step s o cfg env code st).ends, EndCovers I h e) ∨
     (step s o cfg env code st).bounded ≠ [] := by
-  rcases step_corr (w := w) (o := o) (cfg := cfg) hs hI hR hsat hl hmem with
+  rcases step_corr (w := w) (o := o) (cfg := cfg) hs hI hR hsat hl hmem hcode with
     ⟨st1, f1, e, hsat1, _, hreach, hR1⟩ | ⟨st0, h0, data, e, hp, hstep⟩ | ⟨e0, e, hp, hnc⟩ |
     ⟨st0, target, c, e, hc, hp, _, htrue, hbad, hfalse⟩
   · left
